@@ -15,7 +15,7 @@ RULE = ("cases = executed get/set-item operations judged by the contract wrapper
         "boundary random up to 1023 bits; clog2 for all N<=2^16 and 2^k-1,2^k,2^k+1 for k<=1100. "
         "distinct_nontrivial = distinct (operation, validity class, width class, outcome) tuples observed")
 ASSUMPTIONS = [
-  "helper misuse the statement does not mention (zext/sext to a narrower type object, non-Bits arguments) is not asserted",
+  "helper misuse the statement does not mention (non-Bits arguments) is not asserted; zext/sext to a narrower and trunc to a wider target must raise for int and BitsN-type targets alike",
   "an operation with both an invalid index and an invalid value may raise either IndexError or ValueError",
   "bounds given as Bits are read as their unsigned value",
 ]
@@ -174,10 +174,10 @@ def run_helpers(sh):
             if m <= n:
               r = _try(trunc, x, tgt)
               _chk(sh, "trunc", r is not None and _bv(r) == (m, xv & R.mask(m)), n=n, m=m, x=xv, got=r)
-            if m < n and isinstance(tgt, int):
+            if m < n:
               _chk(sh, "zext-narrower-rejected", _try(zext, x, tgt) is None, n=n, m=m, x=xv)
               _chk(sh, "sext-narrower-rejected", _try(sext, x, tgt) is None, n=n, m=m, x=xv)
-            if m > n and isinstance(tgt, int):
+            if m > n:
               _chk(sh, "trunc-wider-rejected", _try(trunc, x, tgt) is None, n=n, m=m, x=xv)
   for c in range(sh.params["cases"]):
     k = rng.randrange(4)
